@@ -799,6 +799,11 @@ func (s *Server) cmdSET(msg *Message) (resp.Value, commandDetails, error) {
 			json := args[i+1]
 			i += 1
 			var err error
+			if field.JSONTooDeep(json) {
+				// the parser recurses: megabytes of nested brackets
+				// would exhaust the stack of the whole process
+				return retwerr(errInvalidArgument("object"))
+			}
 			oobj, err = geojson.Parse(json, &s.geomParseOpts)
 			if err != nil {
 				return retwerr(err)
